@@ -196,6 +196,12 @@ class C13(Check):
         except C.BuildError as e:
             self.corr_broken.append(("cli", "-", "-", e.what + e.output, ""))
             mo = {}
+        # the whole command line as one model function: exit status and the four files
+        mrun = {}
+        try:
+            mrun = C.run_model([l.replace(" cli ", " clirun ", 1) for l in mlines])
+        except C.BuildError as e:
+            self.corr_broken.append(("clirun", "-", "-", e.what + e.output, ""))
         lib_lines = []
         results = {}
         for c in cases:
@@ -246,6 +252,8 @@ class C13(Check):
                     self.corr_broken.append(("cli", c["cid"], "records", "model reader differs", " ".join(c["argv"])))
                 if not ref.vec_close(floats(m["aff"]), call["affinity"], 1e-12, 0):
                     self.corr_broken.append(("cli", c["cid"], "aff", "impl=%s model=%s" % (call["affinity"][:6], floats(m["aff"])[:6]), " ".join(c["argv"])))
+            # ---- (1b) the files the binary wrote vs the files of the model's `cliMain`
+            self.model_files(c, r, mrun.get(c["cid"], {}))
             # ---- (2) library run with an independently built call
             if c["wfile"]:
                 aff = []
@@ -292,6 +300,46 @@ class C13(Check):
                             "adjacency files rendered in random layouts of the grammar (indentation, tabs, trailing blanks, blank-only lines, CRLF, final newline or not, sparse labels); "
                             "the binary built from the working tree is observed through its call_start trace event and its files, compared with the model's call record and with an "
                             "in-process library run; non-trivial = every run that reached the library; distinct by (argv, files)")
+
+    def model_files(self, c, r, m):
+        outdir = c["opts"].get("o", "results")
+        if m.get("exit") != ["ok"]:
+            self.corr_broken.append(("clirun", c["cid"], "exit", "model says %s, binary wrote files" % m.get("exit"), " ".join(c["argv"])))
+            return
+        self.monitor("file sets compared with the model's cliMain")
+        want = set(m.get("files", []))
+        got = {os.path.basename(f) for f in r.files}
+        if want != got:
+            self.corr_broken.append(("clirun", c["cid"], "files", "impl=%s model=%s" % (sorted(got), sorted(want)), " ".join(c["argv"])))
+            return
+        for rel, path in r.files.items():
+            name = os.path.basename(rel)
+            impl_lines = [l for l in read_tokens(path) if l]
+            model_lines = []
+            i = 0
+            while "%s.l%d" % (name, i) in m:
+                if m["%s.l%d" % (name, i)]:
+                    model_lines.append(m["%s.l%d" % (name, i)])
+                i += 1
+            if len(impl_lines) != len(model_lines):
+                self.corr_broken.append(("clirun", c["cid"], name, "%d lines vs model %d" % (len(impl_lines), len(model_lines)), " ".join(c["argv"])))
+                continue
+            for li, (a, b) in enumerate(zip(impl_lines, model_lines)):
+                if a[:2] == ["#", "Duration"]:
+                    continue
+                ok = len(a) == len(b)
+                if ok:
+                    for x, y in zip(a, b):
+                        if C.is_hex(y):
+                            try:
+                                ok = ok and close6(float(x), unhex(y))
+                            except ValueError:
+                                ok = False
+                        else:
+                            ok = ok and x == y
+                if not ok:
+                    self.corr_broken.append(("clirun", c["cid"], "%s line %d" % (name, li), "impl=%s model=%s" % (a, [("%.7g" % unhex(y)) if C.is_hex(y) else y for y in b]), " ".join(c["argv"])))
+                    break
 
     def files_vs_library(self, c, r, lib):
         outdir = c["opts"].get("o", "results")
